@@ -36,13 +36,20 @@ pub struct ClientPlan {
     pub file_arg: String,
     pub receive_dir: std::path::PathBuf,
     pub keep_on_error: bool,
+    /// `-i 0.0.0.0` / `-i ::` as in the README example: the local host answers from its loopback address
+    pub wildcard_addr: bool,
 }
 
 pub fn spawn_client(w: &Arc<World>, p: &ClientPlan) -> Arc<Mutex<CsResult>> {
     let res = Arc::new(Mutex::new(CsResult { run_result: None }));
     let mut args: Vec<String> = vec![
         "-i".into(),
-        if p.v6 { "::1".into() } else { "127.0.0.1".into() },
+        match (p.v6, p.wildcard_addr) {
+            (true, false) => "::1".into(),
+            (false, false) => "127.0.0.1".into(),
+            (true, true) => "::".into(),
+            (false, true) => "0.0.0.0".into(),
+        },
         "-p".into(),
         p.port.to_string(),
         "-b".into(),
@@ -93,14 +100,15 @@ fn client_server(d: &Draw, w: &Arc<World>, sandbox: &Sandbox, prop: &'static str
         srv.dup = Some(n.to_string());
     }
     let upload = d.chance("swarm.kind.upload", 1, 2);
-    let b = if d.chance("swarm.blksize.random", 1, 3) { 8 + d.range("swarm.blksize.value", 3000) as usize } else { d.pick("swarm.blksize.table", &BLKSIZES) };
+    let mut b = if d.chance("swarm.blksize.random", 1, 3) { 8 + d.range("swarm.blksize.value", 3000) as usize } else { d.pick("swarm.blksize.table", &BLKSIZES) };
     let wsz: u64 = if d.chance("swarm.windowsize.random", 1, 3) { 1 + d.range("swarm.windowsize.value", 40) as u64 } else { d.pick("swarm.windowsize.table", &[1u64, 2, 3, 4, 8, 16, 64, 65534, 65535]) };
     let tmo = d.pick("swarm.timeout.table", &[5u64, 1, 2, 30, 255]);
     let max_blocks = if dup.map_or(false, |n| n > 3) { 5 } else { 48 };
     let mut len = draw_len(d, b, wsz, max_blocks, 1 << 20);
     if dup.is_none() && d.chance("swarm.wrap_run", 1, if tier == Tier::Thorough { 300 } else { 1500 }) {
         // a transfer beyond 65535 blocks at blksize 8..9
-        len = 65536 * b.min(9) + 3;
+        b = if b % 2 == 0 { 8 } else { 9 };
+        len = 65536 * b + 3;
     }
     let refusal = if allow_refusals && d.chance("swarm.refusal", 1, 5) { 1 + d.range("swarm.refusal.kind", 4) } else { 0 };
     // names
@@ -167,7 +175,7 @@ fn client_server(d: &Draw, w: &Arc<World>, sandbox: &Sandbox, prop: &'static str
             std::fs::write(&client_path, content(d.pick("swarm.download.old_len", &[len + 900, len / 2, 3 * len + 11]), 94)).unwrap();
         }
     }
-    let plan = ClientPlan { upload, v6: srv.v6, port: srv.port, blksize: b, windowsize: wsz, timeout_s: tmo, file_arg: file_arg.clone(), receive_dir: cli_dir.clone(), keep_on_error: d.chance("swarm.client.keep_on_error", 1, 3) };
+    let plan = ClientPlan { upload, v6: srv.v6, port: srv.port, blksize: b, windowsize: wsz, timeout_s: tmo, file_arg: file_arg.clone(), receive_dir: cli_dir.clone(), keep_on_error: d.chance("swarm.client.keep_on_error", 1, 3), wildcard_addr: d.chance("swarm.client.wildcard_addr", 1, 6) };
     let desc = format!(
         "client/server {} {} file_arg={:?} len={len} blksize={b} windowsize={wsz} timeout={tmo} refusal_kind={refusal}",
         srv.describe(),
@@ -729,9 +737,11 @@ pub fn wrap(_tier: Tier, w: &Arc<World>) -> Scn {
     let mut srv = ServerCfg::new(&dir);
     srv.single_port = d.chance("swarm.single_port", 1, 3);
     let upload = d.chance("swarm.kind.upload", 1, 2);
-    let b = d.pick("swarm.blksize.table", &[8usize, 9, 16]);
-    let wsz = d.pick("swarm.windowsize.table", &[16u64, 2, 3, 4, 7, 8, 64, 500, 1000, 4096, 65535, 65534, 21845]);
-    let blocks = d.pick("swarm.blocks", &[65536u64, 65534, 65535, 65537, 65538, 65600, 70000, 131071, 131073]);
+    // one run in ten asks for no option at all: RFC 1350 lock-step with 512-byte blocks, 32 MiB and more
+    let plain = d.chance("swarm.no_options", 1, 10);
+    let b = if plain { 512 } else { d.pick("swarm.blksize.table", &[8usize, 9, 16]) };
+    let wsz = if plain { 1 } else { d.pick("swarm.windowsize.table", &[16u64, 2, 3, 4, 7, 8, 64, 500, 1000, 4096, 65535, 65534, 21845]) };
+    let blocks = if plain { d.pick("swarm.blocks.plain", &[65536u64, 65537, 65535, 65540]) } else { d.pick("swarm.blocks", &[65536u64, 65534, 65535, 65537, 65538, 65600, 70000, 131071, 131073]) };
     let rem = d.pick("swarm.len.rem", &[3usize, 0, 1, 7]);
     // `blocks` DATA blocks in total: (blocks-1) full ones and a final one of `rem` bytes
     let len = (blocks as usize - 1) * b + rem.min(b - 1);
@@ -742,13 +752,16 @@ pub fn wrap(_tier: Tier, w: &Arc<World>) -> Scn {
     }
     let mut xc = XferCfg::new(srv.addr(), "big.bin");
     xc.opts = vec![("blksize".into(), b.to_string()), ("windowsize".into(), wsz.to_string())];
+    if plain {
+        xc.opts.clear();
+    }
     // the other options travel along as they would with a real client: the size announced for a
     // transfer beyond 65535 blocks, a timeout
-    let with_tsize = d.chance("swarm.opt.tsize", 1, 2);
+    let with_tsize = !plain && d.chance("swarm.opt.tsize", 1, 2);
     if with_tsize {
         xc.opts.insert(d.range("swarm.opt.tsize.at", 3) as usize, ("tsize".into(), if upload { len.to_string() } else { "0".into() }));
     }
-    if d.chance("swarm.opt.timeout", 1, 4) {
+    if !plain && d.chance("swarm.opt.timeout", 1, 4) {
         xc.opts.push(("timeout".into(), "5".into()));
     }
     xc.resend_request = false;
@@ -776,7 +789,7 @@ pub fn wrap(_tier: Tier, w: &Arc<World>) -> Scn {
         // faults only in the windows around the wrap
         g.wrap_gate = Some(2 * wsz.min(2000) + 8);
     }
-    let desc = format!("wrap {} {} blocks={blocks} blksize={b} windowsize={wsz} len={len} tsize={with_tsize} faultfree={faultfree}", srv.describe(), if upload { "upload" } else { "download" });
+    let desc = format!("wrap {} {} blocks={blocks} blksize={b} windowsize={wsz} len={len} tsize={with_tsize} no_options={plain} faultfree={faultfree}", srv.describe(), if upload { "upload" } else { "download" });
     let kind = if upload { Kind::Upload } else { Kind::Download };
     let (peer, client) = if upload { w.add_peer(Box::new(Writer::new(xc, data.to_vec())), false, 0) } else { w.add_peer(Box::new(Reader::new(xc)), false, 0) };
     let spec = XferSpec { client, peer, kind, content: data, path, conformant: true, dally: true, timeout_ratio: 1 };
